@@ -36,6 +36,23 @@ import (
 type c18Cmd struct {
 	ID string `json:"id"`
 }
+
+// a second command type with its own handler: the Router runs the two handlers concurrently
+// (one subscription delivers one message at a time, two subscriptions overlap)
+type c18Cmd2 struct {
+	ID string `json:"id"`
+}
+
+func c18CmdID(c any) string {
+	switch x := c.(type) {
+	case *c18Cmd:
+		return x.ID
+	case *c18Cmd2:
+		return x.ID
+	}
+	return ""
+}
+
 type c18Res struct {
 	V string `json:"v"`
 }
@@ -90,6 +107,7 @@ type c18Req struct {
 	End   int       `json:"end"`   // 0 cancel func, 1 parent context cancelled, 2 backend timeout
 	Sync  bool      `json:"sync"`  // end only once the listener has its next replies in hand
 	Drain bool      `json:"drain"` // keep reading after the end until the channel is closed
+	Kind2 bool      `json:"kind2"` // sends the second command type (handled by the second handler)
 
 	// observed
 	Op         int             `json:"op"`
@@ -135,6 +153,7 @@ type c18Scenario struct {
 	CustomMarshaler bool      `json:"custom_marshaler"` // a BackendPubsubMarshaler that writes a bogus operation id and extra keys
 	Reqs            []*c18Req `json:"reqs"`
 	ParkedG         int       `json:"parked_goroutines"`
+	Overlapped      int       `json:"overlapped"` // two deliveries were together between "op id stamped" and "reply published"
 	WaitedMs        int       `json:"waited_ms"`
 	Problems        []string  `json:"problems"`
 }
@@ -166,15 +185,38 @@ func c18PickMarshaler[R any](custom bool) requestreply.BackendPubsubMarshaler[R]
 }
 
 type c18World struct {
-	sc     *c18Scenario
-	in     *script.Interner
-	rt     *hookrt.Runtime
-	pubsub *gochannel.GoChannel
-	mu     sync.Mutex
-	byID   map[string]*c18Req
-	byOp   map[string]*c18Req
-	byCmd  map[string]*c18Req
-	hooks  map[string]int
+	sc         *c18Scenario
+	in         *script.Interner
+	rt         *hookrt.Runtime
+	pubsub     *gochannel.GoChannel
+	mu         sync.Mutex
+	byID       map[string]*c18Req
+	byOp       map[string]*c18Req
+	byCmd      map[string]*c18Req
+	hooks      map[string]int
+	inModify   int // deliveries currently inside ModifyNotificationMessage (between "op id stamped" and "published")
+	overlapped int // how often two deliveries were inside that window together
+}
+
+func (w *c18World) newCmd(req *c18Req) any {
+	if req.Kind2 {
+		return &c18Cmd2{ID: req.ID}
+	}
+	return &c18Cmd{ID: req.ID}
+}
+
+// the request a notification message belongs to: by the command message in the context the backend gave it
+// (OnCommandProcessed sets the handler's context on the notification), not by what its metadata says
+func (w *c18World) reqOfMsg(m *message.Message) *c18Req {
+	if orig := cqrs.OriginalMessageFromCtx(m.Context()); orig != nil {
+		w.mu.Lock()
+		r := w.byCmd[orig.UUID]
+		w.mu.Unlock()
+		if r != nil {
+			return r
+		}
+	}
+	return w.reqByOp(m.Metadata.Get(requestreply.OperationIDMetadataKey))
 }
 
 func (r *c18Req) ev(d *c18Delivery, e ...interface{}) {
@@ -242,7 +284,7 @@ func (p *c18ReplyPub) Publish(topic string, msgs ...*message.Message) error {
 		return nil
 	}
 	m := msgs[0]
-	req := p.w.reqByOp(m.Metadata.Get(requestreply.OperationIDMetadataKey))
+	req := p.w.reqOfMsg(m)
 	if req == nil {
 		p.w.problem("reply published with unknown op id %q", m.Metadata.Get(requestreply.OperationIDMetadataKey))
 		return p.w.pubsub.Publish(topic, msgs...)
@@ -794,12 +836,12 @@ func c18RunScenario(rt *hookrt.Runtime, sc *c18Scenario, in *script.Interner) er
 	cfg := requestreply.PubSubBackendConfig{
 		Publisher: &c18ReplyPub{w: w},
 		SubscriberConstructor: func(p requestreply.PubSubBackendSubscribeParams) (message.Subscriber, error) {
-			cmd, _ := p.Command.(*c18Cmd)
-			if cmd == nil {
+			cmdID := c18CmdID(p.Command)
+			if cmdID == "" {
 				return nil, errors.New("unexpected command type")
 			}
 			w.mu.Lock()
-			req := w.byID[cmd.ID]
+			req := w.byID[cmdID]
 			if req != nil {
 				w.byOp[string(p.OperationID)] = req
 			}
@@ -825,6 +867,30 @@ func c18RunScenario(rt *hookrt.Runtime, sc *c18Scenario, in *script.Interner) er
 	if sc.HasModify {
 		cfg.ModifyNotificationMessage = func(msg *message.Message, p requestreply.PubSubBackendOnCommandProcessedParams) error {
 			msg.Metadata.Set("modified", "1")
+			// widen the window between "operation id stamped" and "reply published": wait (briefly) for a
+			// delivery of the OTHER handler to be inside the same window, so that concurrent deliveries overlap there
+			w.mu.Lock()
+			w.inModify++
+			w.mu.Unlock()
+			for deadline := time.Now().Add(3 * time.Millisecond); ; {
+				w.mu.Lock()
+				n := w.inModify
+				w.mu.Unlock()
+				if n >= 2 {
+					w.mu.Lock()
+					w.overlapped++
+					w.mu.Unlock()
+					time.Sleep(200 * time.Microsecond)
+					break
+				}
+				if time.Now().After(deadline) {
+					break
+				}
+				time.Sleep(50 * time.Microsecond)
+			}
+			w.mu.Lock()
+			w.inModify--
+			w.mu.Unlock()
 			return nil
 		}
 	}
@@ -837,7 +903,7 @@ func c18RunScenario(rt *hookrt.Runtime, sc *c18Scenario, in *script.Interner) er
 	}
 	if sc.HasErrH {
 		cfg.ReplyPublishErrorHandler = func(topic string, m *message.Message, err error) error {
-			req := w.reqByOp(m.Metadata.Get(requestreply.OperationIDMetadataKey))
+			req := w.reqOfMsg(m)
 			if req == nil {
 				return err
 			}
@@ -861,14 +927,18 @@ func c18RunScenario(rt *hookrt.Runtime, sc *c18Scenario, in *script.Interner) er
 	}
 	marshaler := cqrs.JSONMarshaler{}
 	bus, err := cqrs.NewCommandBusWithConfig(w.pubsub, cqrs.CommandBusConfig{
-		GeneratePublishTopic: func(cqrs.CommandBusGeneratePublishTopicParams) (string, error) { return "commands", nil },
-		Marshaler:            marshaler, Logger: logger,
+		GeneratePublishTopic: func(p cqrs.CommandBusGeneratePublishTopicParams) (string, error) {
+			return "commands-" + p.CommandName, nil
+		},
+		Marshaler: marshaler, Logger: logger,
 	})
 	if err != nil {
 		return err
 	}
 	proc, err := cqrs.NewCommandProcessorWithConfig(router, cqrs.CommandProcessorConfig{
-		GenerateSubscribeTopic: func(cqrs.CommandProcessorGenerateSubscribeTopicParams) (string, error) { return "commands", nil },
+		GenerateSubscribeTopic: func(p cqrs.CommandProcessorGenerateSubscribeTopicParams) (string, error) {
+			return "commands-" + p.CommandName, nil
+		},
 		SubscriberConstructor: func(cqrs.CommandProcessorSubscriberConstructorParams) (message.Subscriber, error) {
 			return w.pubsub, nil
 		},
@@ -886,12 +956,15 @@ func c18RunScenario(rt *hookrt.Runtime, sc *c18Scenario, in *script.Interner) er
 			return err
 		}
 		backend := c18Backend{PubSubBackend: be, w: w}
-		if err := proc.AddHandlers(requestreply.NewCommandHandlerWithResult[c18Cmd, c18Res]("h", backend, w.handle)); err != nil {
+		if err := proc.AddHandlers(requestreply.NewCommandHandlerWithResult[c18Cmd, c18Res]("h", backend, w.handle),
+			requestreply.NewCommandHandlerWithResult[c18Cmd2, c18Res]("h2", backend, func(ctx context.Context, cmd *c18Cmd2) (c18Res, error) {
+				return w.handle(ctx, &c18Cmd{ID: cmd.ID})
+			})); err != nil {
 			return err
 		}
 		sendRes = func(req *c18Req) func(ctx context.Context) error {
 			return func(ctx context.Context) error {
-				r, err := requestreply.SendWithReply[c18Res](ctx, bus, backend, &c18Cmd{ID: req.ID})
+				r, err := requestreply.SendWithReply[c18Res](ctx, bus, backend, w.newCmd(req))
 				if err == nil {
 					req.mu.Lock()
 					req.Got = append(req.Got, w.classify(r.Error, r.HandlerResult, r.NotificationMessage))
@@ -903,7 +976,7 @@ func c18RunScenario(rt *hookrt.Runtime, sc *c18Scenario, in *script.Interner) er
 		}
 		sendReplies = func(req *c18Req) func(ctx context.Context) (func(), error) {
 			return func(ctx context.Context) (func(), error) {
-				_, cancel, err := requestreply.SendWithReplies[c18Res](ctx, bus, backend, &c18Cmd{ID: req.ID})
+				_, cancel, err := requestreply.SendWithReplies[c18Res](ctx, bus, backend, w.newCmd(req))
 				return cancel, err
 			}
 		}
@@ -916,12 +989,15 @@ func c18RunScenario(rt *hookrt.Runtime, sc *c18Scenario, in *script.Interner) er
 		if err := proc.AddHandlers(requestreply.NewCommandHandler[c18Cmd]("h", backend, func(ctx context.Context, cmd *c18Cmd) error {
 			_, err := w.handle(ctx, cmd)
 			return err
+		}), requestreply.NewCommandHandler[c18Cmd2]("h2", backend, func(ctx context.Context, cmd *c18Cmd2) error {
+			_, err := w.handle(ctx, &c18Cmd{ID: cmd.ID})
+			return err
 		})); err != nil {
 			return err
 		}
 		sendRes = func(req *c18Req) func(ctx context.Context) error {
 			return func(ctx context.Context) error {
-				r, err := requestreply.SendWithReply[struct{}](ctx, bus, backend, &c18Cmd{ID: req.ID})
+				r, err := requestreply.SendWithReply[struct{}](ctx, bus, backend, w.newCmd(req))
 				if err == nil {
 					req.mu.Lock()
 					req.Got = append(req.Got, w.classify(r.Error, r.HandlerResult, r.NotificationMessage))
@@ -933,7 +1009,7 @@ func c18RunScenario(rt *hookrt.Runtime, sc *c18Scenario, in *script.Interner) er
 		}
 		sendReplies = func(req *c18Req) func(ctx context.Context) (func(), error) {
 			return func(ctx context.Context) (func(), error) {
-				_, cancel, err := requestreply.SendWithReplies[struct{}](ctx, bus, backend, &c18Cmd{ID: req.ID})
+				_, cancel, err := requestreply.SendWithReplies[struct{}](ctx, bus, backend, w.newCmd(req))
 				return cancel, err
 			}
 		}
@@ -1107,6 +1183,9 @@ func c18RunScenario(rt *hookrt.Runtime, sc *c18Scenario, in *script.Interner) er
 	for t1 := time.Now(); !settled() && time.Since(t1) < 3*time.Second; {
 		time.Sleep(time.Millisecond)
 	}
+	w.mu.Lock()
+	sc.Overlapped = w.overlapped
+	w.mu.Unlock()
 	if err := router.Close(); err != nil {
 		w.problem("router close: %v", err)
 	}
@@ -1245,6 +1324,7 @@ func c18Gen(rng *rand.Rand, idx int, maxReqs int) *c18Scenario {
 			force = 4
 		}
 		sc.Reqs = append(sc.Reqs, c18GenReq(rng, sc, fmt.Sprintf("s%dr%d", idx, i), force))
+		sc.Reqs[i].Kind2 = i%2 == 1
 	}
 	sc.CustomMarshaler = idx%3 == 1
 	return sc
